@@ -97,36 +97,43 @@ func sendConcMode(out string, par int, dur time.Duration, seed int64, tmp string
 				var op string
 				var cerr error
 				want := map[string]string{}
-				switch rng.Intn(7) {
-				case 0:
-					op = "ICMP6SendNeighborAdvertisement"
-					cerr = sess.ICMP6SendNeighborAdvertisement(host, packet.Addr{MAC: e.MAC("mac1"), IP: e.IP("lla1")}, packet.Addr{MAC: nic.HostMAC, IP: target})
-					want = map[string]string{"kind": "na", "f.target": target.String(), "f.tlla": nic.HostMAC.String(), "f.router": "0", "f.solicited": "0", "f.override": "1", "hop": "255"}
-				case 1:
-					op = "ICMP6SendNeighbourSolicitation"
-					cerr = sess.ICMP6SendNeighbourSolicitation(host, packet.IPv6SolicitedNode(e.IP("lla1")), target)
-					want = map[string]string{"kind": "ns", "f.target": target.String(), "f.slla": nic.HostMAC.String()}
-				case 2:
-					op = "ICMP6SendEchoRequest"
-					cerr = sess.ICMP6SendEchoRequest(host, packet.Addr{MAC: e.MAC("mac1"), IP: e.IP("gua1")}, id, seq)
-					want = map[string]string{"kind": "echoreq", "proto": "icmp6", "f.id": fmt.Sprint(id), "f.seq": fmt.Sprint(seq), "ipDst": e.IP("gua1").String()}
-				case 3:
-					op = "ICMP4SendEchoRequest"
-					cerr = sess.ICMP4SendEchoRequest(packet.Addr{MAC: nic.HostMAC, IP: nic.HostIP}, packet.Addr{MAC: e.MAC("mac1"), IP: tip}, id, seq)
-					want = map[string]string{"kind": "echoreq", "proto": "icmp4", "f.id": fmt.Sprint(id), "f.seq": fmt.Sprint(seq), "ipDst": tip.String()}
-				case 4:
-					op = "arp.Request"
-					cerr = arp.Request(tip)
-					want = map[string]string{"kind": "arpreq", "f.tpa": tip.String(), "f.spa": nic.HostIP.String(), "f.sha": nic.HostMAC.String()}
-				case 5:
-					op = "arp.Reply"
-					cerr = arp.Reply(e.MAC("mac1"), packet.Addr{MAC: nic.HostMAC, IP: nic.RouterIP}, packet.Addr{MAC: e.MAC("mac1"), IP: tip})
-					want = map[string]string{"kind": "arpreply", "f.spa": nic.RouterIP.String(), "f.tpa": tip.String(), "f.tha": e.MAC("mac1").String(), "ethDst": e.MAC("mac1").String()}
-				default:
-					op = "dhcp4.SendDiscoverPacket"
-					cerr = dh.SendDiscoverPacket(e.MAC("mac2"), tip, xid, "conc")
-					want = map[string]string{"kind": "dhcp4", "f.msgtype": "1", "f.xid": hex.EncodeToString(xid), "f.chaddr": e.MAC("mac2").String(), "f.ciaddr": tip.String()}
-				}
+				func() {
+					defer func() {
+						if x := recover(); x != nil {
+							cerr = fmt.Errorf("panic: %v", x)
+						}
+					}()
+					switch rng.Intn(7) {
+					case 0:
+						op = "ICMP6SendNeighborAdvertisement"
+						cerr = sess.ICMP6SendNeighborAdvertisement(host, packet.Addr{MAC: e.MAC("mac1"), IP: e.IP("lla1")}, packet.Addr{MAC: nic.HostMAC, IP: target})
+						want = map[string]string{"kind": "na", "f.target": target.String(), "f.tlla": nic.HostMAC.String(), "f.router": "0", "f.solicited": "0", "f.override": "1", "hop": "255"}
+					case 1:
+						op = "ICMP6SendNeighbourSolicitation"
+						cerr = sess.ICMP6SendNeighbourSolicitation(host, packet.IPv6SolicitedNode(e.IP("lla1")), target)
+						want = map[string]string{"kind": "ns", "f.target": target.String(), "f.slla": nic.HostMAC.String()}
+					case 2:
+						op = "ICMP6SendEchoRequest"
+						cerr = sess.ICMP6SendEchoRequest(host, packet.Addr{MAC: e.MAC("mac1"), IP: e.IP("gua1")}, id, seq)
+						want = map[string]string{"kind": "echoreq", "proto": "icmp6", "f.id": fmt.Sprint(id), "f.seq": fmt.Sprint(seq), "ipDst": e.IP("gua1").String()}
+					case 3:
+						op = "ICMP4SendEchoRequest"
+						cerr = sess.ICMP4SendEchoRequest(packet.Addr{MAC: nic.HostMAC, IP: nic.HostIP}, packet.Addr{MAC: e.MAC("mac1"), IP: tip}, id, seq)
+						want = map[string]string{"kind": "echoreq", "proto": "icmp4", "f.id": fmt.Sprint(id), "f.seq": fmt.Sprint(seq), "ipDst": tip.String()}
+					case 4:
+						op = "arp.Request"
+						cerr = arp.Request(tip)
+						want = map[string]string{"kind": "arpreq", "f.tpa": tip.String(), "f.spa": nic.HostIP.String(), "f.sha": nic.HostMAC.String()}
+					case 5:
+						op = "arp.Reply"
+						cerr = arp.Reply(e.MAC("mac1"), packet.Addr{MAC: nic.HostMAC, IP: nic.RouterIP}, packet.Addr{MAC: e.MAC("mac1"), IP: tip})
+						want = map[string]string{"kind": "arpreply", "f.spa": nic.RouterIP.String(), "f.tpa": tip.String(), "f.tha": e.MAC("mac1").String(), "ethDst": e.MAC("mac1").String()}
+					default:
+						op = "dhcp4.SendDiscoverPacket"
+						cerr = dh.SendDiscoverPacket(e.MAC("mac2"), tip, xid, "conc")
+						want = map[string]string{"kind": "dhcp4", "f.msgtype": "1", "f.xid": hex.EncodeToString(xid), "f.chaddr": e.MAC("mac2").String(), "f.ciaddr": tip.String()}
+					}
+				}()
 				frames := conn.Take()
 				n++
 				local[op]++
